@@ -1023,7 +1023,7 @@ def _h_lg_read(ex, st, o, args, kwargs, node):
         return AbsObj('bytes', 'TheKlass', {})
     if o.ident in fx['others']:
         return ex.c.real('other_' + o.ident)
-    return st.get(st.env['_stored']).items[o.ident]
+    return st.get(ex.root_env['_stored']).items[o.ident]
 
 
 def _h_lg_keys(ex, st, o, args, kwargs, node):
